@@ -414,7 +414,7 @@ def records_for(inst, seed=0, full_variants=True):
         for mp in pads:
             out.append(rec_resize_array(h, w, um, h2, w2, mp, g, rng))
         g = _geom(rng)
-        for mp in (0, 1):
+        for mp in ((0, 1) if full_variants else (1 - pads[0],)):
             out.append(rec_resize_mask(h, w, um, h2, w2, mp, g))
         if h2 >= h and w2 >= w:
             out.append(rec_grow_shrink(h, w, um, h2, w2, int(rng.integers(0, 2)), _geom(rng), rng))
@@ -552,7 +552,9 @@ def validate(ctx, records, tag, chunk=1500):
     for n, r in enumerate(records):
         r["id"] = n
     slim = [{k: v for k, v in r.items() if k not in ("inst", "tau", "error")} for r in records]
-    chunks = [slim[k: k + chunk] for k in range(0, len(slim), chunk)]
+    nchunks = max(1, -(-len(slim) // chunk))
+    size = max(1, -(-len(slim) // nchunks))  # balanced chunks: no tiny last JVM
+    chunks = [slim[k: k + size] for k in range(0, len(slim), size)]
     rejects = []
 
     def one(args):
